@@ -331,6 +331,54 @@ fn two_stoppers() {
     println!("COMPLETED: both operations finished");
 }
 
+/// C16: a global assignment that begins while a collection is ALREADY under way (the collector holds the heap
+/// lock and has not yet asked the threads to stop).  On the pinned tree the assigning thread first waits for the
+/// heap lock inside a safepoint, so the collector finds it stopped; the solver's schedule for a tree without that
+/// wait: the assigning thread goes straight to stop_threads and spins on the collector, which then blocks on the
+/// registry lock.  T0 (collector) is held at STOP_BEGIN until T1 has either arrived at its own STOP_BEGIN or has
+/// had 1.5 s to block on the heap lock.
+#[test]
+fn gc_first() {
+    let mut engine = Engine::new();
+    install("");
+    engine.run("(require-builtin steel/time) (define verif-g3 0) (define t #f)".to_string()).unwrap();
+    hold(0, hook::STOP_BEGIN);
+    engine
+        .run(r#"(set! t (spawn-native-thread (lambda () (time/sleep-ms 300) (set! verif-g3 1) 1)))"#.to_string())
+        .unwrap();
+    std::thread::spawn(move || {
+        if !wait_arrived(0, hook::STOP_BEGIN, 15) {
+            println!("EVENTS: {}", events().join(","));
+            println!("COMPLETED: T0 never reached stop_threads");
+            std::process::exit(0);
+        }
+        // T0 is inside the collection, before its stop request; give T1 time to begin its assignment
+        let t1_at_stop = wait_arrived(1, hook::STOP_BEGIN, 2);
+        release(0, hook::STOP_BEGIN);
+        let t0 = Instant::now();
+        while t0.elapsed() < Duration::from_secs(8) {
+            if BOTH_DONE.load(Ordering::SeqCst) {
+                return;
+            }
+            std::thread::sleep(Duration::from_millis(50));
+        }
+        println!("EVENTS: {}", events().join(","));
+        println!(
+            "OBSERVED: a global assignment begun while a collection was under way (collector holding the heap lock, assigning thread {} stop_threads before the collector's stop request): 8 s later neither operation has completed (spin iterations T0 {}, T1 {})",
+            if t1_at_stop { "had entered" } else { "had not entered" },
+            SPINS[0].load(Ordering::Relaxed),
+            SPINS[1].load(Ordering::Relaxed)
+        );
+        std::process::exit(3);
+    });
+    engine.run("(#%gc-collect)".to_string()).unwrap();
+    engine.run("(thread-join! t)".to_string()).ok();
+    BOTH_DONE.store(true, Ordering::SeqCst);
+    hook::set(None);
+    println!("EVENTS: {}", events().join(","));
+    println!("COMPLETED: both operations finished");
+}
+
 /// C17: an interrupt requested by the host is overwritten by a concurrent stop/resume and the
 /// interpreter keeps running.  Solver schedule (projected): host interrupt() completes; then the
 /// collector's stop_threads stores PausedAtSafepoint over it; the target's next poll parks as
@@ -451,17 +499,35 @@ fn interrupt_hang() {
 #[test]
 fn stress_progress() {
     let rounds: usize = std::env::var("VERIF_SYNC_ROUNDS").ok().and_then(|x| x.parse().ok()).unwrap_or(300);
+    let gc = std::env::var("VERIF_SYNC_STOPPER").map(|x| x == "gc").unwrap_or(false);
     let mut engine = Engine::new();
-    engine
-        .run(
-            r#"(define counter 0)
+    if gc {
+        // the world-stopper is a COLLECTION; every short-lived thread frees a large private list while it is on
+        // its way out (the list sits in an unused argument until the last frame is popped), which widens the
+        // window between a thread's last poll and the disappearance of its context
+        engine
+            .run(
+                r#"(define stop-flag (box #f))
+                   (define (stopper) (if (unbox stop-flag) 'done (begin (#%gc-collect) (stopper))))
+                   (define (make-junk n acc) (if (= n 0) acc (make-junk (- n 1) (cons (number->string n) acc))))
+                   (define (hold-until-return k junk) k)
+                   (define (worker) (hold-until-return 3 (make-junk 100000 '())))
+                   (define stopper-thread #f)"#
+                    .to_string(),
+            )
+            .unwrap();
+    } else {
+        engine
+            .run(
+                r#"(define counter 0)
                (define stop-flag (box #f))
                (define (stopper) (if (unbox stop-flag) 'done (begin (set! counter (+ counter 1)) (stopper))))
                (define (worker) (+ 1 2))
                (define stopper-thread #f)"#
-                .to_string(),
-        )
-        .unwrap();
+                    .to_string(),
+            )
+            .unwrap();
+    }
     let progress = std::sync::Arc::new(AtomicU64::new(0));
     let p2 = progress.clone();
     std::thread::spawn(move || {
@@ -477,7 +543,7 @@ fn stress_progress() {
                 last = cur;
                 since = Instant::now();
             } else if since.elapsed() > Duration::from_secs(12) {
-                println!("OBSERVED: no progress for 12 s after {} spawn/join rounds: a global assignment and a thread spawn/exit wait for each other", cur);
+                println!("OBSERVED: no progress for 12 s after {} spawn/join rounds: a world-stopping operation (global assignment / collection) and a thread spawn/exit wait for each other", cur);
                 std::process::exit(3);
             }
         }
@@ -489,7 +555,7 @@ fn stress_progress() {
     }
     engine.run("(set-box! stop-flag #t) (thread-join! stopper-thread)".to_string()).unwrap();
     progress.store(u64::MAX, Ordering::SeqCst);
-    println!("COMPLETED: {} spawn/join rounds against a continuously assigning thread", rounds);
+    println!("COMPLETED: {} spawn/join rounds against a continuously {} thread", rounds, if gc { "collecting" } else { "assigning" });
 }
 
 static HOLD_INTERRUPT_MID_MS: AtomicU64 = AtomicU64::new(0);
